@@ -1,4 +1,5 @@
 import DaeVerif.C08.Proofs
+import DaeVerif.C08.ConcProofs
 /-!
 # C08 — property theorems
 
@@ -273,16 +274,36 @@ theorem latch_is_per_object_and_released_per_key :
   refine ⟨by decide, by decide⟩
 
 /-- **The entry's TTL is the shortest answer TTL.**  The TTL handed to the cache for a reply is at
-most the TTL of every record of its answer section (first record `r`, the others `o`), at most one
-year, and 120 s for an empty answer: no record is served past its own TTL because another record of
-the same reply lives longer. -/
-theorem entry_ttl_is_minimum_over_answers (n r o : Nat) :
-    normTtl n r o ≤ 31536000 ∧ (n ≥ 1 → normTtl n r o ≤ r) ∧ (n ≥ 2 → normTtl n r o ≤ o) ∧
-    (n = 0 → normTtl n r o = 120) ∧ (n ≥ 2 → r ≤ 31536000 → o ≤ 31536000 → normTtl n r o = min r o) := by
+most the TTL of **every** record of its answer section (any number of records, the smallest anywhere
+in the section), at most one year, and 120 s for an empty answer: no record is served past its own
+TTL because another record of the same reply lives longer.  And it is not shorter than necessary: when
+no record exceeds a year it is the TTL of one of the records. -/
+theorem entry_ttl_is_minimum_over_answers (ttls : List Nat) :
+    normTtl ttls ≤ 31536000 ∧ (∀ t ∈ ttls, normTtl ttls ≤ t) ∧ (ttls = [] → normTtl ttls = 120) ∧
+    (ttls ≠ [] → (∀ t ∈ ttls, t ≤ 31536000) → normTtl ttls ∈ ttls) := by
   unfold normTtl
-  refine ⟨by omega, ?_, ?_, ?_, ?_⟩ <;> intro h <;> (try intro h2 h3) <;> split <;> (try split) <;> omega
+  refine ⟨by omega, ?_, ?_, ?_⟩
+  · intro t ht
+    cases ttls with
+    | nil => simp at ht
+    | cons a rest =>
+      simp only
+      obtain ⟨h1, h2⟩ := foldl_min_le rest a
+      rcases List.mem_cons.mp ht with rfl | ht
+      · omega
+      · have := h2 t ht; omega
+  · intro h; subst h; rfl
+  · intro hne hall
+    cases ttls with
+    | nil => exact absurd rfl hne
+    | cons a rest =>
+      simp only
+      have hm := foldl_min_mem rest a
+      have := hall _ hm
+      rw [Nat.min_eq_left this]; exact hm
 
-example : normTtl 2 3600 30 = 30 ∧ normTtl 2 30 3600 = 30 ∧ normTtl 1 3600 30 = 3600 ∧ normTtl 0 5 5 = 120 := by decide
+example : normTtl [3600, 30] = 30 ∧ normTtl [30, 3600] = 30 ∧ normTtl [3600] = 3600 ∧ normTtl [] = 120 ∧
+    normTtl [300, 300, 7, 300] = 7 ∧ normTtl [300, 200, 100] = 100 ∧ normTtl [40000000, 50000000] = 31536000 := by decide
 
 /-! ### fixed TTL -/
 
@@ -338,37 +359,42 @@ theorem request_key_injective (n1 n2 : List Char) (q1 q2 c1 c2 : Nat) (r1 r2 : R
 theorem request_key_class_IN (n : List Char) (q : Nat) (r : Route) : requestKey n q classIN r = responseKey n q r :=
   requestKey_IN n q r
 
-/-- **A request is a piece of history.**  `World.ask` (the model of `HandleWithResponseWriter_` on one
-route, tied by the request-path stream) is `run` on the operations `askOps` lists, so every theorem
-of this file about histories speaks about requests too.  All those operations use the key derived
-from the request's own question and route; a question of a class other than IN never stores
-anything (its answer is not cached), and a reply that is not cacheable is not stored either. -/
+/-- **A request is a piece of history.**  `World.ask` (the model of `HandleWithResponseWriter_`, tied by
+the request-path stream on as-is, upstream and reject routes) is `run` on the operations `askOps`
+lists, so every theorem of this file about histories speaks about requests too.  A rejected request
+purges the family of its question and touches nothing else.  Every other request only uses the key
+derived from its own question and route; it stores only if the upstream exchange succeeded, the
+question is of class IN and the reply has rcode 0 — and then exactly that reply, under that key, with the
+smallest answer TTL, at the moment the (last) exchange ended. -/
 theorem request_touches_only_its_key (w : World) (t : Int) (name : List Char) (qtype qclass : Nat) (r : Route)
     (rep : Reply) (g : Nat) :
     (w.ask t name qtype qclass r rep g) = run w (askOps w t name qtype qclass r rep g) ∧
-    (∀ op ∈ askOps w t name qtype qclass r rep g,
+    (r = .reject → askOps w t name qtype qclass r rep g = [.removeFamily (questionKey name qtype qclass)]) ∧
+    (r ≠ .reject → ∀ op ∈ askOps w t name qtype qclass r rep g,
       (∃ now ign, op = .lookup now (requestKey name qtype qclass r) ign) ∨
       (∃ now, op = .refreshDone now (requestKey name qtype qclass r)) ∨
-      (op = .insert (t + SEC) (requestKey name qtype qclass r) (fqdn name) qtype (normTtl rep.nAns rep.rttl rep.ottl)
-              rep.ans rep.nAns rep.ns false ∧ qclass = classIN ∧ rep.rcode = 0)) := by
-  refine ⟨rfl, ?_⟩
-  intro op hop
-  have hstore : ∀ o ∈ (if cacheable true 1 rep.rcode qclass = true then
-      [Op.insert (t + SEC) (requestKey name qtype qclass r) (fqdn name) qtype (normTtl rep.nAns rep.rttl rep.ottl)
-        rep.ans rep.nAns rep.ns false] else []),
-      o = .insert (t + SEC) (requestKey name qtype qclass r) (fqdn name) qtype (normTtl rep.nAns rep.rttl rep.ottl)
-              rep.ans rep.nAns rep.ns false ∧ qclass = classIN ∧ rep.rcode = 0 := by
+      (op = .insert (t + rep.hops * SEC) (requestKey name qtype qclass r) (fqdn name) qtype (normTtl rep.ttls)
+              rep.ans rep.ttls.length rep.ns false ∧ qclass = classIN ∧ rep.rcode = 0 ∧ rep.fail = false)) := by
+  refine ⟨rfl, ?_, ?_⟩
+  · intro hr; simp [askOps, hr]
+  intro hr op hop
+  have hstore : ∀ o ∈ (if (!rep.fail && cacheable true 1 rep.rcode qclass) = true then
+      [Op.insert (t + rep.hops * SEC) (requestKey name qtype qclass r) (fqdn name) qtype (normTtl rep.ttls)
+        rep.ans rep.ttls.length rep.ns false] else []),
+      o = .insert (t + rep.hops * SEC) (requestKey name qtype qclass r) (fqdn name) qtype (normTtl rep.ttls)
+              rep.ans rep.ttls.length rep.ns false ∧ qclass = classIN ∧ rep.rcode = 0 ∧ rep.fail = false := by
     intro o ho
     split at ho
     · rename_i hc
       simp only [List.mem_singleton] at ho
-      simp only [cacheable, Bool.and_eq_true, beq_iff_eq, Bool.true_and] at hc
-      exact ⟨ho, hc.2, hc.1.2⟩
+      simp only [cacheable, Bool.and_eq_true, beq_iff_eq, Bool.true_and, Bool.not_eq_eq_eq_not, Bool.not_true] at hc
+      exact ⟨ho, hc.2.2, hc.2.1.2, hc.1⟩
     · simp at ho
   have hrep : ∀ (now : Int) o, o ∈ List.replicate g (Op.lookup now (requestKey name qtype qclass r) false) →
       ∃ now ign, o = .lookup now (requestKey name qtype qclass r) ign :=
     fun now o ho => ⟨now, false, (List.mem_replicate.mp ho).2⟩
   unfold askOps at hop
+  rw [if_neg hr] at hop
   simp only at hop
   split at hop
   · split at hop
@@ -382,19 +408,54 @@ theorem request_touches_only_its_key (w : World) (t : Int) (name : List Char) (q
     · exact Or.inl (hrep _ _ hop)
     · rcases List.mem_append.mp hop with hop | hop
       · exact Or.inr (Or.inr (hstore _ hop))
-      · exact Or.inl (hrep _ _ hop)
+      · split at hop
+        · simp at hop
+        · exact Or.inl (hrep _ _ hop)
 
--- non-vacuity: a CH-class request is forwarded and not cached; the IN request after it is forwarded too
+-- non-vacuity: a CH-class request is forwarded and not cached; the IN request after it is forwarded too;
+-- a failing upstream leaves nothing behind; a rejected request purges the other scopes' entries
 example :
     let c := Cfg.normalize true 60 0 []
-    let a1 := (start c).ask 0 ['v'] 16 3 (.asIs none) ⟨300, 300, 7, 1, 0, 0⟩
-    let a2 := a1.1.ask (5 * SEC) ['v'] 16 1 (.asIs none) ⟨300, 300, 8, 1, 0, 0⟩
-    let a3 := a2.1.ask (9 * SEC) ['v'] 16 1 (.asIs none) ⟨300, 300, 9, 1, 0, 0⟩
+    let a1 := (start c).ask 0 ['v'] 16 3 (.asIs none) ⟨[300], 7, 0, 0, false, 1⟩
+    let a2 := a1.1.ask (5 * SEC) ['v'] 16 1 (.asIs none) ⟨[300, 200], 8, 0, 0, false, 1⟩
+    let a3 := a2.1.ask (9 * SEC) ['v'] 16 1 (.asIs none) ⟨[300], 9, 0, 0, false, 1⟩
+    let a4 := a3.1.ask (9 * SEC) ['v'] 16 1 (.upstream ['u']) ⟨[300], 10, 0, 0, true, 1⟩
+    let a5 := a4.1.ask (12 * SEC) ['V', '.'] 16 1 .reject ⟨[], 0, 0, 0, false, 1⟩
     a1.2.map LRes.view = [none, none] ∧ a1.1.st.entries.length = 0 ∧
-    a2.2.map LRes.view = [none, none, some (false, 300, 8, false)] ∧
-    a3.2.map LRes.view = [some (false, 300, 8, false)] := by
-  intro c a1 a2 a3
-  refine ⟨by decide, by decide, by decide, by decide⟩
+    a2.2.map LRes.view = [none, none, some (false, 200, 8, false)] ∧
+    a3.2.map LRes.view = [some (false, 200, 8, false)] ∧
+    a4.2.map LRes.view = [none] ∧ a4.1.st.entries.length = 1 ∧
+    a5.1.st.entries.length = 0 := by
+  intro c a1 a2 a3 a4 a5
+  refine ⟨by decide, by decide, by decide, by decide, by decide, by decide, by decide⟩
+
+/-- **A rejected question is purged in every scope.**  Whatever the history, after a request for
+(`name`, `qtype`, class IN) that request routing rejects, a lookup of that name and type under any
+route's scope — in any spelling of the name — is a miss: nothing cached earlier for that question
+survives a reject. -/
+theorem reject_purges_every_scope (c0 : Cfg) (ops : List Op) (t : Int) (name name' : List Char)
+    (hn : name'.map lowerAscii = name.map lowerAscii) (qtype : Nat) (rep : Reply) (g : Nat)
+    (r' : Route) (now : Int) (ign : Bool) :
+    let w := ((run (start c0) ops).1.ask t name qtype classIN .reject rep g).1
+    (step w (.lookup now (responseKey name' qtype r') ign)).2 = .miss := by
+  intro w
+  have hk : baseKey (responseKey name' qtype r') = questionKey name qtype classIN := by
+    rw [show baseKey (responseKey name' qtype r') = cacheKey name' qtype from baseKey_scopedKey qtype _]
+    simp only [questionKey, if_true, List.append_nil, cacheKey, kname]
+    rw [canon_case_insensitive name' name hn]
+  have hne : questionKey name qtype classIN ≠ [] := by
+    obtain ⟨l, hl⟩ := kname_ends name
+    simp [questionKey, cacheKey, hl]
+  have hw : w = (step (run (start c0) ops).1 (.removeFamily (questionKey name qtype classIN))).1 := by
+    simp [w, World.ask, askOps, run_cons, run_nil]
+  rw [hw]
+  simp only [step, State.removeFamily, if_neg hne, State.lookup]
+  cases hf : find ((run (start c0) ops).1.st.entries.filter fun p => baseKey p.1 ≠ questionKey name qtype classIN)
+      (responseKey name' qtype r') with
+  | none => rfl
+  | some e' =>
+    have := (List.mem_filter.mp (find_mem hf)).2
+    simp [hk] at this
 
 /-- the family key used by reject-routing (`RemoveDnsRespCacheFamily`) is the unscoped key -/
 theorem base_of_response_key (n : List Char) (q : Nat) (r : Route) :
@@ -482,5 +543,180 @@ example :
     heapChoice [(['a'], 5), (['b'], 1)] 1 = [['b']] ∧ heapChoice [(['b'], 1), (['a'], 5)] 1 = [['b']] ∧
     heapChoice [(['x'], 3), (['y'], 1), (['z'], 2), (['u'], 7), (['v'], 0)] 2 = [['y'], ['v']] := by
   decide
+
+
+/-! ### the concurrent part: every interleaving of the shared-memory actions (`Conc.lean`) -/
+
+section Concurrent
+open DaeVerif.C08.Conc
+
+/-- a cache with nothing in it and threads that have not started: any number of lookups (each with
+its own clock reading and `ignoreFixedTtl`), inserts, refresh clean-ups and janitor passes -/
+def cstart (threads : List Thread) : Sys := ⟨Mem.empty, threads⟩
+
+/-- **Eviction never removes anything but the expired object it looked at.**  For every set of
+threads and every schedule (any interleaving of their `Load` / `CompareAndSwap` / `CompareAndDelete` /
+`Store` actions on the key): whenever an object leaves the map slot by eviction, it is the very object
+the evicting thread had loaded and judged (`removed = examined`: an entry stored in between — a
+background refresh's new answer — is never deleted in its place), and the judgement was "expired and
+not servable as stale" at that thread's clock reading (a lookup), resp. "past deadline + stale window,
+time-based eviction on" (the janitor). -/
+theorem eviction_removes_only_the_expired_object_it_examined (cfg : Cfg) (threads : List Thread)
+    (hst : ∀ th ∈ threads, th.isStart = true) (sched : List Nat) :
+    ∀ ev ∈ (exec Variant.real cfg (cstart threads) sched).mem.evictions,
+      ev.removed = ev.examined ∧
+      (ev.byJanitor = false → verdict cfg ev.now ev.ign ev.examined.2 = .evict) ∧
+      (ev.byJanitor = true → useTimeEviction cfg = true ∧ effDeadline cfg ev.examined.2 ≤ ev.now) :=
+  fun ev hev => (exec_inv sched (SInv.start cfg threads hst)).mem.ev_ok ev hev
+
+/-- … and nothing else empties the slot: an action either leaves the slot alone, or is an insert's
+`Store`, or is an eviction that is logged with the object it removed.  (Any variant.) -/
+theorem slot_changes_only_by_store_or_logged_eviction (v : Variant) (cfg : Cfg) (s : Sys) (i : Nat) :
+    (sysStep v cfg s i).mem.slot = s.mem.slot ∨
+    (∃ e, s.threads[i]? = some (.insert e) ∧ (sysStep v cfg s i).mem.slot = some (s.mem.nextId, e)) ∨
+    ((sysStep v cfg s i).mem.slot = none ∧
+      ∃ ev, (sysStep v cfg s i).mem.evictions = ev :: s.mem.evictions ∧ s.mem.slot = some ev.removed) := by
+  have hev : ∀ (o : Obj) (now : Int) (ign byJ : Bool),
+      (evictSlot v s.mem o now ign byJ).slot = s.mem.slot ∨
+      ((evictSlot v s.mem o now ign byJ).slot = none ∧
+        ∃ ev, (evictSlot v s.mem o now ign byJ).evictions = ev :: s.mem.evictions ∧ s.mem.slot = some ev.removed) := by
+    intro o now ign byJ
+    unfold evictSlot
+    split
+    · exact Or.inl rfl
+    · rename_i cur hs
+      split
+      · exact Or.inr ⟨rfl, _, rfl, hs⟩
+      · exact Or.inl rfl
+  unfold sysStep
+  cases hi : s.threads[i]? with
+  | none => exact Or.inl rfl
+  | some th =>
+    cases th with
+    | lookup now ign => simp only [stepThread]; split <;> exact Or.inl rfl
+    | lookupLoaded now ign o =>
+      simp only [stepThread]
+      cases verdict cfg now ign o.2 with
+      | fresh => exact Or.inl rfl
+      | stale => simp only; split <;> split <;> exact Or.inl rfl
+      | evict => rcases hev o now ign false with h | h
+                 · exact Or.inl h
+                 · exact Or.inr (Or.inr h)
+    | lookupSawUnlatched now ign o => exact Or.inl rfl
+    | lookupDone r => exact Or.inl rfl
+    | insert e => exact Or.inr (Or.inl ⟨e, rfl, rfl⟩)
+    | insertDone => exact Or.inl rfl
+    | rdone => simp only [stepThread]; split <;> exact Or.inl rfl
+    | rdoneLoaded o => simp only [stepThread]; split <;> exact Or.inl rfl
+    | rdoneSawTrue o => exact Or.inl rfl
+    | rdoneDone => exact Or.inl rfl
+    | janitor now => simp only [stepThread]; split <;> (try split) <;> exact Or.inl rfl
+    | janitorLoaded now o =>
+      simp only [stepThread]
+      split
+      · rcases hev o now false true with h | h
+        · exact Or.inl h
+        · exact Or.inr (Or.inr h)
+      · exact Or.inl rfl
+    | janitorDone => exact Or.inl rfl
+
+/-- **At most one refresh request per entry between two clean-ups, under every interleaving.**  However
+many goroutines look a stale entry up at the same time, and wherever the clean-ups of finished
+refreshes fall between their actions: the number of lookups that were told `needRefresh = true` for an
+entry object exceeds the number of `MarkRefreshed` executed on it by at most one — and not at all
+while its flag is down. -/
+theorem one_refresh_request_per_release_under_every_interleaving (cfg : Cfg) (threads : List Thread)
+    (hst : ∀ th ∈ threads, th.isStart = true) (sched : List Nat) (o : Nat) :
+    let m := (exec Variant.real cfg (cstart threads) sched).mem
+    count m.grants o ≤ count m.releases o + 1 ∧ (o ∉ m.flag → count m.grants o ≤ count m.releases o) :=
+  (exec_inv sched (SInv.start cfg threads hst)).mem.latch o
+
+/-- **The one-step lookup of `Model.lean` is what a lookup thread does when nobody interferes.**  A
+lookup thread whose two actions run back to back on a slot holding `o` answers exactly as
+`lookupEntry` does on `o` with its current `refreshing` flag: same hit/miss, same stale bit, same
+`needRefresh`, the entry stays / leaves the map in the same cases, and the flag ends up set in the
+same cases. -/
+theorem lookup_thread_alone_is_the_atomic_lookup (cfg : Cfg) (now : Int) (ign : Bool) (m : Mem) (o : Obj)
+    (hs : m.slot = some o) :
+    let e : Entry := { o.2 with refreshing := decide (o.1 ∈ m.flag) }
+    let s2 := exec Variant.real cfg ⟨m, [.lookup now ign]⟩ [0, 0]
+    (∀ e1 sv, lookupEntry cfg now ign e = (some e1, .hit sv) →
+      s2.threads = [.lookupDone (some (o, sv.stale, sv.refresh))] ∧ s2.mem.slot = some o ∧
+      (e1.refreshing = true ↔ o.1 ∈ s2.mem.flag)) ∧
+    (lookupEntry cfg now ign e = (none, .miss) → s2.threads = [.lookupDone none] ∧ s2.mem.slot = none) := by
+  intro e s2
+  have hvd : verdict cfg now ign e = verdict cfg now ign o.2 := rfl
+  have hstep1 : sysStep Variant.real cfg ⟨m, [.lookup now ign]⟩ 0 = ⟨m, [.lookupLoaded now ign o]⟩ := by
+    simp [sysStep, stepThread, hs]
+  have hs2 : s2 = sysStep Variant.real cfg ⟨m, [.lookupLoaded now ign o]⟩ 0 := by
+    simp only [s2, exec, hstep1]
+  obtain ⟨hF, hS, hE⟩ := lookupEntry_verdict cfg now ign e
+  have her : e.refreshing = decide (o.1 ∈ m.flag) := rfl
+  cases hv : verdict cfg now ign o.2 with
+  | fresh =>
+    obtain ⟨e1, sv, heq, h1, h2, _, hp⟩ := hF (hvd.trans hv)
+    have hst : s2 = ⟨m, [.lookupDone (some (o, false, false))]⟩ := by
+      rw [hs2]; simp [sysStep, stepThread, hv]
+    refine ⟨?_, fun h => by rw [heq] at h; cases h⟩
+    intro e1' sv' h'
+    have hh : e1' = e1 ∧ sv' = sv := by rw [heq] at h'; cases h'; exact ⟨rfl, rfl⟩
+    rw [hh.1, hh.2, hst, h1, h2]
+    refine ⟨rfl, hs, ?_⟩
+    -- a fresh hit leaves the flag as it was
+    rw [hp, her]; simp
+  | stale =>
+    obtain ⟨e1, sv, heq, h1, h2, _, h4⟩ := hS (hvd.trans hv)
+    refine ⟨?_, fun h => by rw [heq] at h; cases h⟩
+    intro e1' sv' h'
+    have hh : e1' = e1 ∧ sv' = sv := by rw [heq] at h'; cases h'; exact ⟨rfl, rfl⟩
+    rw [hh.1, hh.2]
+    by_cases hf : o.1 ∈ m.flag
+    · have hst : s2 = ⟨m, [.lookupDone (some (o, true, false))]⟩ := by
+        rw [hs2]; simp [sysStep, stepThread, hv, Variant.real, hf]
+      have h2' : sv.refresh = false := by rw [h2, her]; simp [hf]
+      rw [hst, h1, h2']
+      exact ⟨rfl, hs, ⟨fun _ => hf, fun _ => h4⟩⟩
+    · have hst : s2 = ⟨{ m with flag := o.1 :: m.flag, grants := o.1 :: m.grants }, [.lookupDone (some (o, true, true))]⟩ := by
+        rw [hs2]; simp [sysStep, stepThread, hv, Variant.real, hf]
+      have h2' : sv.refresh = true := by rw [h2, her]; simp [hf]
+      rw [hst, h1, h2']
+      exact ⟨rfl, hs, ⟨fun _ => List.mem_cons_self, fun _ => h4⟩⟩
+  | evict =>
+    have heq := hE (hvd.trans hv)
+    refine ⟨fun e1 sv h => (by rw [heq] at h; cases h), ?_⟩
+    intro _
+    have hst : s2 = ⟨evictSlot Variant.real m o now ign false, [.lookupDone none]⟩ := by
+      rw [hs2]; simp [sysStep, stepThread, hv]
+    rw [hst]
+    refine ⟨rfl, ?_⟩
+    simp [evictSlot, hs, Variant.real]
+
+-- non-vacuity 1: a lookup loads the expired entry, a refresh stores the new answer, the lookup's
+-- eviction comes last: with CompareAndDelete the new answer stays; with a plain Delete it is gone
+-- (and the eviction log shows a removed object that is not the examined one).
+example :
+    let cfg := Cfg.normalize false 60 0 []
+    let old := insEntry cfg 0 0 ['k'] ['a'] 1 5 7 1 0
+    let new := insEntry cfg 1 (100 * SEC) ['k'] ['a'] 1 300 8 1 0
+    let threads := [Thread.insert old, .lookup (100 * SEC) false, .insert new, .lookup (101 * SEC) false]
+    let sched := [0, 1, 2, 1, 3, 3]
+    (exec Variant.real cfg (cstart threads) sched).results = [none, some ((1, new), false, false)] ∧
+    (exec Variant.real cfg (cstart threads) sched).mem.evictions.length = 0 ∧
+    (exec ⟨false, true⟩ cfg (cstart threads) sched).results = [none, none] ∧
+    ((exec ⟨false, true⟩ cfg (cstart threads) sched).mem.evictions.map fun ev => (ev.removed.1, ev.examined.1)) = [(1, 0)] := by
+  refine ⟨by decide, by decide, by decide, by decide⟩
+
+-- non-vacuity 2: three lookups of one stale entry interleaved action by action: one refresh request
+-- with the CAS, three with Load-then-Store.
+example :
+    let cfg := Cfg.normalize true 60 0 []
+    let e := insEntry cfg 0 0 ['k'] ['a'] 1 1 7 1 0
+    let threads := [Thread.insert e, .lookup (2 * SEC) false, .lookup (2 * SEC) false, .lookup (2 * SEC) false]
+    let sched := [0, 1, 2, 3, 1, 2, 3, 1, 2, 3]
+    (exec Variant.real cfg (cstart threads) sched).mem.grants = [0] ∧
+    (exec ⟨true, false⟩ cfg (cstart threads) sched).mem.grants = [0, 0, 0] := by
+  refine ⟨by decide, by decide⟩
+
+end Concurrent
 
 end DaeVerif.C08.Props
